@@ -14,6 +14,13 @@ Readings (where the property text leaves room):
 * "dotted units carry their defined values" (round 6): symbolic_to_numeric_duration of a note value with 0..3 dots and
   a tuplet of NON-ZERO counts is divs * value * (2 - 1/2^dots) * normal / actual; a count or the dots left out of the dict
   mean no tuplet / no dots.  Nothing is demanded for a count of 0 (the code reads it as 1; compared with the model only).
+* "values outside -7..7 ... are rejected" (round 6, after seed C12-k): a VALUE, whatever type holds it - 7.5, Fraction(15, 2),
+  Decimal("-7.001"), numpy.float32(7.25), +-inf are outside -7..7 exactly as 8 is, and must raise whatever the mode and
+  whatever the way in (the function, a mode left out, KeySignature.name).  An integral value of a non-integer type inside
+  the range (2.0) may be rejected (the list index refuses it today) or accepted, but if accepted it names the key of that
+  integer; for a NON-integral value inside the range (2.5) the property demands nothing (compared with the model only,
+  which says what the code does: TypeError).  nan is neither inside nor outside: nothing demanded.  The same for the mode
+  number: any value other than 1 / -1 (0.999, 1.5, Fraction(3, 2), Decimal("-1.4")) is an unknown mode.
 * Tuplet ratios "carry their defined values": duration_multiplier = normal_notes * dur(normal_type) /
   (actual_notes * dur(actual_type)) exactly (a Fraction), for every pair of note types; with both types absent
   normal_notes / actual_notes.
@@ -22,6 +29,7 @@ import itertools
 import copy
 import math
 import numbers
+from decimal import Decimal
 from fractions import Fraction
 
 import numpy as np
@@ -33,7 +41,7 @@ PROPERTY = "C12"
 DRIVER = "drv_c12"
 PROPS = ["PartituraModel.Props.C12", "PartituraModel.Props.C12Real", "PartituraModel.Props.C12Ext",
          "PartituraModel.Props.C12Keys", "PartituraModel.Props.C12More", "PartituraModel.Props.C12Lits",
-         "PartituraModel.Props.C12RealBack", "PartituraModel.Props.C12Gram"]
+         "PartituraModel.Props.C12RealBack", "PartituraModel.Props.C12Gram", "PartituraModel.Props.C12Num"]
 TRUSTED = [
     "Python str.lower/upper/strip/count, int() on [+-]digits, re for NOTE_NAME_PATT (modelled as a scanner over the "
     "character classes read off the pattern by re's own parser)",
@@ -44,6 +52,9 @@ TRUSTED = [
     "NumPy promotion rules (NEP 50) for the typed-argument cases: observed, not modelled (the model works on values)",
     "NumPy applies `np.round` / `.astype(int)` / the arithmetic operators of an ndarray element by element (the array "
     "forms of the tick conversions are modelled as List.map of the scalar formula and compared by the stream conv_arr)",
+    "Python list indexing accepts exactly the types with __index__ (int, bool, NumPy integers) and raises TypeError for "
+    "float / NumPy floats / Fraction / Decimal whatever their value; chained comparison `-7 <= x <= 7` is by exact value "
+    "for all of these types (PyNum in Model/ConversionsNum.lean; compared by the stream f2kn in 17 number types)",
     "Python `str.format` on a format string whose fields are all `{}` (modelled by `pyFormat`)",
 ]
 PARTIAL = [
@@ -64,6 +75,10 @@ RULE = ("exhaustive finite domains named by the property (steps x alter -3..3 x 
         "plus every branch of the closed form (up to five accidentals, both kinds mixed, marks in odd places: "
         "`key_name_branches`); symbolic durations with the keys of the dict left out (`symbolic_numeric_shapes`); array "
         "calls of the tick conversions in six dtypes with the keywords given or left to the defaults (`array_calls`); "
+        "fifths and mode numbers in seven NON-integer types (float, float64/32/16, longdouble, Fraction, Decimal): every "
+        "integer of -9..9, seven fractional offsets above each, 2^-9 inside / outside the bounds, wrap-around distances, "
+        "huge values, +-inf, nan, and in ten integer types out to the type limits, through the function, a mode left out "
+        "and KeySignature.name (`fifths_number_kinds`); "
         "distinct = distinct request line; non-trivial = not an error case")
 
 STEPS = "CDEFGAB"
@@ -168,6 +183,142 @@ def _txt(n):
     return W.f_tuple(*[_txt(x) for x in n])
 
 
+# ------------------------------------------------------------- numbers of NON-integer types (round 6, after seed C12-k)
+REAL_T = ["float", "float64", "float32", "float16", "longdouble", "Fraction", "Decimal"]
+INDEX_T = ["int", "bool"] + INT_T          # types list indexing accepts (__index__)
+FRACS = ["1/1000", "1/4", "2/5", "1/2", "3/5", "3/4", "999/1000"]
+
+
+def mkreal(s, t):
+    """the number written s ("p/q", "inf", "-inf", "nan") held in the non-integer type t"""
+    if s in ("inf", "-inf", "nan"):
+        if t == "Decimal":
+            return Decimal(s)
+        return {"float": float}.get(t, getattr(np, t, None))(float(s))
+    fr = Fraction(s)
+    if t in INDEX_T:
+        return mk(int(fr), t)
+    if t == "Fraction":
+        return fr
+    if t == "Decimal":
+        return Decimal(fr.numerator) / Decimal(fr.denominator)
+    x = fr.numerator / fr.denominator
+    return x if t == "float" else getattr(np, t)(x)
+
+
+def real_value(s, x):
+    """exact value of the object x built from s: a Fraction, "+inf", "-inf" or None (nan)"""
+    if s == "nan":
+        return None
+    if s in ("inf", "-inf"):
+        return "+inf" if s == "inf" else "-inf"
+    if isinstance(x, (Fraction, Decimal)):
+        return Fraction(x)
+    f = float(x)
+    if math.isinf(f):  # (float16 overflows early)
+        return "+inf" if f > 0 else "-inf"
+    return Fraction(*f.as_integer_ratio())
+
+
+def outside(val, lo, hi):
+    """is the value (Fraction | +-inf) outside lo..hi"""
+    return val in ("+inf", "-inf") or val < lo or val > hi
+
+
+def nonint_cases():
+    """fifths and mode numbers in every non-integer type: integral values, values a hair / a quarter / a half / almost
+    one above each integer of -9..8 (whatever a coercion does - truncate, floor, ceil, round - some of them move across
+    the bounds -7 / 7), wrap-around distances of the 15-element lists, huge values, infinities"""
+    modes = ["major", "minor", None, "none", 1, -1, "dorian", 0]
+    for t in REAL_T:
+        for n in range(-9, 10):
+            vals = ["%d" % n] + [str(Fraction(n) + Fraction(f)) for f in FRACS if n < 9]
+            if n in (7, -8):
+                vals += [str(Fraction(n) + Fraction(1, 2**9)), str(Fraction(n + 1) - Fraction(1, 2**9))]
+            yield {"k": "f2kx", "t": t, "vals": vals, "modes": modes}
+    for t in INDEX_T:
+        # (the typed cases `ty` hold -7..7 only: here the values around and beyond the bounds in every integer type)
+        vals = [str(n) for n in list(range(-23, 24)) + [127, -128, 255, 256, 2**31 - 1, -2**31, 2**63 - 1] if fits(n, t)]
+        yield {"k": "f2kx", "t": t, "vals": vals, "modes": ["major", -1, None, "dorian"]}
+    for t in REAL_T:
+        far = ["15/2", "-15/2", "29/2", "-29/2", "31/2", "45/2", "-45/2", "22", "-23", "1000000001/2", "-2000000001/2"]
+        yield {"k": "f2kx", "t": t, "vals": far + (["inf", "-inf", "nan"] if t != "Fraction" else []), "modes": modes[:6]}
+        near = ["%s" % (Fraction(sgn) * (1 + Fraction(sg2) * Fraction(f))) for sgn in (1, -1) for sg2 in (1, -1) for f in FRACS]
+        yield {"k": "modex", "t": t, "vals": ["1", "-1", "0", "2", "-2", "3/2", "-3/2", "1/1000000000"] + near
+               + (["inf", "-inf", "nan"] if t != "Fraction" else [])}
+
+
+def _key_for(i, minor):
+    return (MIN[i + 7] + "m") if minor else MAJ[i + 7]
+
+
+def _okmode(mode):
+    return any(mode is m or (type(mode) is type(m) and mode == m) for m in MODES)
+
+
+def _eval_f2kx(d, ev, M, S):
+    t = d["t"]
+    for s in d["vals"]:
+        x = mkreal(s, t)
+        val = real_value(s, x)
+        ways = [("fn", m) for m in d["modes"]] + [("dflt", None), ("ks", "major"), ("ks", "minor"), ("ks", None)]
+        for way, mode in ways:
+            if way == "fn":
+                r, e = call(M.fifths_mode_to_key_name, x, mode)
+                shown = "fifths_mode_to_key_name(%r, %r)" % (x, mode)
+            elif way == "dflt":
+                r, e = call(M.fifths_mode_to_key_name, x)
+                shown = "fifths_mode_to_key_name(%r)" % (x,)
+            else:
+                ks, e = call(S.KeySignature, x, mode)
+                r, e = call(lambda: ks.name) if e is None else (None, e)
+                shown = "KeySignature(%r, %r).name" % (x, mode)
+            if isinstance(val, Fraction):
+                ev.requests.append("f2kn %s %s %s" % ("i" if t in INDEX_T else "r", W.q(val), "D" if way == "dflt" else lit(mode)))
+                ev.impl.append("err" if e else str(r))
+            if val is None:
+                continue  # nan: neither inside nor outside
+            if outside(val, -7, 7):
+                if not e:
+                    ev.oracle.append("%s = %r: the value %s is outside -7..7 and must be rejected, not mapped to a key" % (
+                        shown, r, val if not isinstance(val, Fraction) else (float(val) if val.denominator & (val.denominator - 1) == 0 else val)))
+            elif not _okmode(mode):
+                if not e:
+                    ev.oracle.append("%s = %r: unknown mode must be rejected" % (shown, r))
+            elif val.denominator == 1 and (not e or t in INDEX_T):
+                exp = _key_for(int(val), mode in ("minor", -1))
+                if e:
+                    ev.oracle.append("%s raised %r: the %s %d is inside -7..7, its key is %r" % (shown, e, t, int(val), exp))
+                elif r != exp:
+                    ev.oracle.append("%s = %r: the number %s is %d, whose key is %r" % (shown, r, x, int(val), exp))
+
+
+def _eval_modex(d, ev, M, S):
+    t = d["t"]
+    for s in d["vals"]:
+        x = mkreal(s, t)
+        val = real_value(s, x)
+        obs = [("key_mode_to_int(%r)" % (x,), "kmi", call(M.key_mode_to_int, x)),
+               ("key_int_to_mode(%r)" % (x,), "kim", call(M.key_int_to_mode, x)),
+               ("fifths_mode_to_key_name(-3, %r)" % (x,), "f2k -3", call(M.fifths_mode_to_key_name, -3, x)),
+               ("KeySignature(4, %r).name" % (x,), "f2k 4", call(lambda: S.KeySignature(4, x).name))]
+        for shown, req, (r, e) in obs:
+            if isinstance(val, Fraction):
+                ev.requests.append("%s n:%s" % (req, W.q(val)))
+                ev.impl.append("err" if e else (W.f_int(r) if req == "kmi" else str(r)))
+            if val is None:
+                continue
+            if val not in (1, -1):
+                if not e:
+                    ev.oracle.append("%s = %r: the number %s is not 1 / -1: unknown mode must be rejected" % (shown, r, s))
+            elif not e:
+                minor = val == -1
+                exp = {"kmi": -1 if minor else 1, "kim": "minor" if minor else "major", "f2k -3": _key_for(-3, minor),
+                       "f2k 4": _key_for(4, minor)}[req]
+                if r != exp:
+                    ev.oracle.append("%s = %r: the number %s means %r" % (shown, r, s, exp))
+
+
 def cases(rng, tier):
     # 1. spelling -> midi / name
     for st in STEPS:
@@ -196,6 +347,9 @@ def cases(rng, tier):
     for f in (-8, -7, -1, 0, 3, 7, 8):
         for m in MODES_TYPED + BADMODES2:
             yield {"k": "f2k", "f": f, "mode": m}
+    # 4b. (round 6, after seed C12-k) fifths / mode numbers held in NON-integer types
+    for c in nonint_cases():
+        yield c
     # 5. key names
     for nm in MAJ + [k + "m" for k in MIN] + ["Fb", "E#", "B#", "Fbm", "E#m", "Cbm", "H", "", "m", "Xm", "C##", "Abbm"]:
         yield {"k": "k2f", "name": nm}
@@ -790,6 +944,12 @@ def evaluate(d):
         else:
             if not e:
                 ev.oracle.append("fifths_mode_to_key_name(%r,%r) = %r: value outside -7..7 / unknown mode must be rejected" % (f, mode, r))
+    elif k == "f2kx":
+        _eval_f2kx(d, ev, M, S)
+        key = "f2kx"
+    elif k == "modex":
+        _eval_modex(d, ev, M, S)
+        key = "modex"
     elif k == "k2f":
         nm = d["name"]
         r, e = call(M.key_name_to_fifths_mode, nm)
@@ -1221,6 +1381,13 @@ def shrink(d):
     if d.get("k") == "ty" and len(d.get("col") or []) > 1:
         for v in d["col"]:
             yield dict(d, col=[v], args=[v] + list(d["args"][1:]))
+    if d.get("k") in ("f2kx", "modex"):
+        if len(d["vals"]) > 1:
+            for v in d["vals"]:
+                yield dict(d, vals=[v])
+        if len(d.get("modes") or []) > 1:
+            for m in d["modes"]:
+                yield dict(d, modes=[m])
     if d.get("k") == "tupx" and len(d["normals"]) > 1:
         for n in d["normals"]:
             yield dict(d, normals=[n])
@@ -1281,7 +1448,19 @@ def distribution(descs, results):
         "none" if d["actual"] is None and d["normal"] is None else ("zero count" if 0 in (d["actual"], d["normal"]) else
                                                                    ("one count" if None in (d["actual"], d["normal"]) else "both")))
         for d in descs if d["k"] == "s2num")
-    return {"by_kind": dict(c), "error_observations": errs, "observations_by_request": dict(obs),
+    fk = Counter()
+    for d in descs:
+        if d["k"] == "f2kx":
+            for v in d["vals"]:
+                if v in ("inf", "-inf", "nan"):
+                    fk["%s / %s" % (d["t"], v)] += 1
+                    continue
+                fr = Fraction(v)
+                where = "outside" if abs(fr) > 7 else "inside"
+                if where == "outside" and abs(fr) < 8:
+                    where = "outside by less than one"
+                fk["%s / %s / %s" % ("integer type" if d["t"] in INDEX_T else d["t"], "integral" if fr.denominator == 1 else "fractional", where)] += 1
+    return {"by_kind": dict(c), "fifths_number_kinds": dict(fk), "error_observations": errs, "observations_by_request": dict(obs),
             "key_name_branches": dict(k2f), "array_calls": dict(arr), "symbolic_numeric_shapes": dict(s2n),
             "typed_by_function": dict(ty_f), "typed_by_type_and_form": dict(ty_t), "typed_other_arguments": dict(ty_other),
             "tuplet_branches": dict(tup), "ensure_format_argument_kinds": dict(ep),
@@ -1300,4 +1479,7 @@ LEVEL_TEXT = ("Lean 4 theorems (unbounded over octaves/pitches/ticks/counts/mode
               "tables, the key estimator's KEYS table and the pitch-class table are proved to agree (tonic = 7 * fifths "
               "mod 12 for any number of accidentals), the array forms of the tick conversions are in the model (element "
               "by element, round trip on whole arrays), symbolic_to_numeric_duration is characterised on every dict, "
-              "and frequency -> pitch -> frequency is bounded by a quarter tone over the reals.")
+              "and frequency -> pitch -> frequency is bounded by a quarter tone over the reals.  After seed C12-k: the "
+              "number of fifths is modelled as a Python NUMBER (integer-typed or any other real type with its exact value): "
+              "every value outside -7..7 is proved rejected in every type and mode, a name is produced exactly for "
+              "integer-typed -7..7, and a produced name reads back to the value passed; compared on 17 number types.")
